@@ -124,6 +124,13 @@ def Abs.reach (a : Abs) (n : Nat) (t : Nat) : Bool :=
 def Abs.findAlias (a : Abs) (inst i : Nat) : Option Nat :=
   (List.range a.cap).find? (fun t => decide (a.aliasOf t = some (inst, i)))
 
+/-- the nodes associated with a package: its instantiations and (transitively) their aliases —
+    an alias carries the package of the instance it aliases -/
+def Abs.ofPkg (a : Abs) (id : PkgId) (m : Nat) : Bool :=
+  match a.node m with
+  | some nd => decide (nd.pkg = some id)
+  | none => false
+
 /-- the package of an instantiation node -/
 def Abs.instPkg (a : Abs) (nd : ANode) : Option PkgDef :=
   match nd.pkg with
@@ -150,9 +157,7 @@ def specStep (ctx : Ctx) (fr : Fresh) (a : Abs) : Op → Abs × Outcome
     match a.pkg id with
     | none => (a, .panic .invalidPackageId)
     | some d =>
-      let a1 := a.removeSet (fun m => match a.node m with
-        | some nd => decide (nd.pkg = some id)
-        | none => false)
+      let a1 := a.removeSet (a.ofPkg id)
       ({ a1 with pkg := upd a1.pkg id none, pkgByKey := upd a1.pkgByKey d.key none }, .ok .unit)
   /- `define_type`: "Adds a type definition node … The graph must not already have a node
      exported with the same name.  This method will implicitly add dependency edges to other
